@@ -270,7 +270,13 @@ fn run_default<T: Flt>(rep: &Report, cli: &Cli) {
         fam.calls += 2;
         fam.nontrivial += 1;
         let a = lexical_core::write(v, &mut buf).to_vec();
-        let b = lexical::to_string(v).into_bytes();
+        let b = match guarded(|| lexical::to_string(v).into_bytes()) {
+            Ok(b) => b,
+            Err(p) => {
+                rep.violation(format!("{}|default|{:#x}", T::NAME, bits), format!("C17 to_string({:#x}) panicked ({}) but write = {:?}", bits, p, show_bytes(&a)));
+                continue;
+            }
+        };
         if a != b || a.iter().any(|&c| c >= 0x80) {
             rep.violation(format!("{}|default|{:#x}", T::NAME, bits), format!("C17 to_string({:#x}) = {:?} but write = {:?}", bits, show_bytes(&b), show_bytes(&a)));
         }
@@ -322,7 +328,13 @@ where
         fam.calls += 4;
         fam.nontrivial += 1;
         let a = lexical_core::write(v, &mut buf).to_vec();
-        let b = lexical::to_string(v).into_bytes();
+        let b = match guarded(|| lexical::to_string(v).into_bytes()) {
+            Ok(b) => b,
+            Err(p) => {
+                rep.violation(format!("{}|int|{}", T::NAME, iv.show()), format!("C17 to_string({}) panicked ({}) but write = {:?}", iv.show(), p, show_bytes(&a)));
+                continue;
+            }
+        };
         if a != b || a.iter().any(|&c| c >= 0x80) {
             rep.violation(format!("{}|int|{}", T::NAME, iv.show()), format!("C17 to_string({}) = {:?} but write = {:?}", iv.show(), show_bytes(&b), show_bytes(&a)));
         }
